@@ -105,6 +105,10 @@ func (c Case) options(dbg interpreter.Debugger) []interpreter.ExecutionOptionFun
 		o = append(o, interpreter.WithScripts(nil, unlock))
 	case 9:
 		o = append(o, interpreter.WithScripts(lock, nil))
+	case 13: // a nil transaction handed over through WithTx, scripts given separately
+		o = append(o, interpreter.WithTx(nil, c.Idx, nil), interpreter.WithScripts(lock, unlock))
+	case 14: // a nil transaction with a previous output
+		o = append(o, interpreter.WithTx(nil, c.Idx, &bt.Output{Satoshis: c.Amount, LockingScript: lock}))
 	case 10: // nothing at all
 	case 11: // a transaction without inputs
 		o = append(o, interpreter.WithTx(&bt.Tx{}, c.Idx, &bt.Output{Satoshis: c.Amount, LockingScript: lock}))
@@ -317,7 +321,7 @@ func genCase(t *rapid.T) Case {
 		}
 	}
 	c := Case{Unlock: p.Unlock, Lock: p.Lock, Flags: uint32(p.Flags), Level: p.Level,
-		CtxKind: rapid.SampledFrom([]int{0, 0, 1, 1, 1, 1, 1, 2, 3, 4, 5, 6, 7, 8, 9, 10, 11, 12}).Draw(t, "ctx"),
+		CtxKind: rapid.SampledFrom([]int{0, 0, 1, 1, 1, 1, 1, 2, 3, 4, 5, 6, 7, 8, 9, 10, 11, 12, 13, 14}).Draw(t, "ctx"),
 		NIn:     rapid.IntRange(1, 3).Draw(t, "nin"),
 		Version: rapid.SampledFrom([]uint32{0, 1, 2, 0xffffffff}).Draw(t, "version"),
 		Lock32:  rapid.SampledFrom([]uint32{0, 100, 499999999, 500000000, 0xffffffff}).Draw(t, "locktime"),
@@ -358,6 +362,9 @@ var hostile = []Case{
 	{Unlock: pbt.Hex{0x51}, Lock: pbt.Hex{0x51}, Flags: 0, CtxKind: 2, NIn: 1}, // nil previous output + scripts
 	{Unlock: pbt.Hex{0x51}, Lock: pbt.Hex{0x51}, Flags: 0, CtxKind: 3, NIn: 1},
 	{Unlock: pbt.Hex{0x51}, Lock: pbt.Hex{0x51}, Flags: 0, CtxKind: 1, NIn: 1, Idx: -1},
+	{Unlock: pbt.Hex{0x51}, Lock: pbt.Hex{0x51}, Flags: 0, CtxKind: 13, NIn: 1, Idx: -1},
+	{Unlock: pbt.Hex{0x51}, Lock: pbt.Hex{0x51}, Flags: 0, CtxKind: 14, NIn: 1, Idx: -1},
+	{Unlock: pbt.Hex{0x51}, Lock: pbt.Hex{0x51}, Flags: 0, CtxKind: 13, NIn: 1, Idx: 3},
 	{Unlock: pbt.Hex{0x51}, Lock: pbt.Hex{0x51}, Flags: 0, CtxKind: 1, NIn: 2, Idx: 2},
 	{Unlock: pbt.Hex{0x51}, Lock: pbt.Hex{0x02, 0xab, 0xcd, 0x09, 0, 0, 0, 0, 0, 0, 0, 0, 0x01, 0x7f}, Flags: uint32(interp.FlagAfterGenesis), CtxKind: 1, NIn: 1}, // SPLIT at 2^64
 	{Unlock: pbt.Hex{0x51}, Lock: pbt.Hex{0x09, 0, 0, 0, 0, 0, 0, 0, 0x80, 0x00, 0x7f}, Flags: uint32(interp.FlagAfterGenesis), CtxKind: 1, NIn: 1},
@@ -399,7 +406,7 @@ func FuzzExecute(f *testing.F) {
 		if len(unlock) > 2000 || len(lock) > 2000 {
 			t.Skip()
 		}
-		c := Case{Unlock: unlock, Lock: lock, Flags: flags & 0xffff, CtxKind: int(ctxKind % 13), NIn: 2, Idx: int(idx), Version: 2, Lock32: 100, Seq: 50, Level: "fuzz"}
+		c := Case{Unlock: unlock, Lock: lock, Flags: flags & 0xffff, CtxKind: int(ctxKind % 15), NIn: 2, Idx: int(idx), Version: 2, Lock32: 100, Seq: 50, Level: "fuzz"}
 		if err := check(&pbt.Ctx{}, c); err != nil {
 			if dir := os.Getenv("VERIF_FUZZ_OUT"); dir != "" {
 				n++
